@@ -171,7 +171,11 @@ func (g *GenCfg) genNode(r *RNG, goType string, depth int, embedded bool) T {
 		case "Type":
 			// only a plain Object can do without its type: the type is what tells the decoders which struct to build
 			if !(embedded && g.EmptyTypes && goType == "Object" && r.Chance(25)) {
-				f[name] = T{"s": r.Pick(vocab[goType])}
+				if r.Chance(20) {
+					f[name] = T{"s": vocab[goType][0]} // the generic name of the family (Activity, Actor, Object, Link, …)
+				} else {
+					f[name] = T{"s": r.Pick(vocab[goType])}
+				}
 			}
 			continue
 		}
